@@ -321,10 +321,16 @@ class Ledger:
             # an Option / Result carrying such an element: Some(x), a merge of None and Some(x), its payload
             if t[0] == 'agg' and t[2] in ('Some', 'Ok') and t[3]:
                 return from_filter(t[3][0], depth + 1)
+            if t[0] == 'agg' and t[2] and len(t[3]) == 1 and t[1].startswith('bc_envelope::'):
+                return from_filter(t[3][0], depth + 1)       # the one-field variant of a private carrier enum (Unique(a), Found(a), ..)
             if t[0] == 'vfield' and t[2] in ('Some', 'Ok', 'Continue'):
                 return from_filter(t[1], depth + 1)
+            if t[0] == 'vfield' and t[3] == '0' and strip_sites(t[1])[0] in ('phi', 'agg'):
+                inner = strip_sites(t[1])
+                alts = [a for a in phi_alts(inner) if a[0] == 'agg' and a[2] == t[2]]
+                return bool(alts) and all(from_filter(a, depth + 1) for a in alts)
             if t[0] == 'phi':
-                live = [a for a in t[1] if not (a[0] == 'agg' and a[2] in ('None', 'Err'))]
+                live = [a for a in t[1] if not (a[0] == 'agg' and (a[2] in ('None', 'Err') or not a[3]))]
                 return bool(live) and all(from_filter(a, depth + 1) for a in live)
             if t[0] == 'call' and call_name(t) == 'branch':
                 return from_filter(t[2][0], depth + 1)
